@@ -15,7 +15,7 @@ checks = []; na = []
 for pr in props:
     pid = pr["id"]
     pl = plans.get(pid)
-    if not pl or pl.get("disabled"):
+    if not pl or not pl.get("ready"):
         na.append(dict(property_id=pid, reason=(pl or {}).get("disabled_reason", "check not built yet (work in progress)")))
         continue
     c = dict(property_id=pid,
